@@ -485,9 +485,9 @@ pub enum DocKind {
 }
 
 pub fn document(rng: &mut Rng, kind: DocKind) -> String {
-    // one document in 125 is big - a few thousand lines, beyond 64 KiB: a threshold in the code
+    // one document in 200 is big - a few thousand lines, beyond 64 KiB: a threshold in the code
     // ("large documents take the other path") must have documents on both sides of it
-    if rng.chance(8) {
+    if rng.chance(5) {
         return match kind {
             DocKind::Valid => {
                 if rng.chance(250) {
